@@ -1,10 +1,12 @@
 import Driver.Util
 import Driver.BipSpec
+import Driver.WsDecode
 
 /-! `sonicspec`: the property monitors alone (no model, nothing regenerated from the source). -/
 open Driver
 
 def components : List (String × (Script → Result)) :=
-  [("bip", Driver.BipSpec.check)]
+  [("bip", Driver.BipSpec.check),
+   ("wsdecode", Driver.WsDecode.checkSpec)]
 
 def main (args : List String) : IO UInt32 := Driver.mainWith components args
